@@ -36,7 +36,7 @@ RULE = ('transform cases: rank r in 1..3 x stacking axis k in [-(r+1), r] (negat
         'thorough); names are drawn from {a,b,c,d,None} without repeats and every name owns a unique dimension size, partition names own '
         'the stacking lengths; an unboxed variable of the same rank rides along in the same collection. Partial-rank names only with '
         'k >= 0 on single-level cases (weaker oracle: names[k] == p, order, size alignment; negative k with partial names is ambiguous and '
-        'not generated). The deprecated partitioning.*_with_axes API is exercised for k >= 0 only (LEGACY_NEGATIVE_AXES: its insert still uses '
+        'not generated). The deprecated partitioning.*_with_axes API is exercised for negative k as well since /repo 7a65497 (LEGACY_NEGATIVE_AXES; before that fix its insert used '
         'Python semantics for negative positions; reported, outside the property text which speaks of boxed variables). logical_to_mesh_axes: duplicate logical names inside one logical-axis tuple are outside its domain (it rejects them; '
         'a ValueError is accepted, a returned spec must still be reuse-free); tuple-valued mesh targets are sampled, not enumerated; '
         'RulesFallback modes are decided only where the docstring is unambiguous (a name no rule mentions / every name assigned). '
@@ -52,12 +52,12 @@ MIN_EVENTS = {'quick': {'oracle:linen.align': 100, 'oracle:nnx.align': 150, 'ora
                         'oracle:linen.negative_axis_misaligned': 1500, 'oracle:nnx.negative_axis_misaligned': 1000,
                         'oracle:linen.negative_axis': 80, 'oracle:nnx.negative_axis': 80,
                         'oracle:rules.axes': 22621, 'rules.tuples_evaluated': 3528876, 'oracle:rules.context': 1000,
-                        'oracle:meta.inverse': 1000, 'oracle:nnx.meta.inverse': 150, 'oracle:legacy.align': 60, 'oracle:legacy.body_names': 40},
+                        'oracle:meta.inverse': 1000, 'oracle:nnx.meta.inverse': 150, 'oracle:legacy.align': 20, 'oracle:legacy.body_names': 10},
               'thorough': {'oracle:linen.align': 1000, 'oracle:nnx.align': 1500, 'oracle:linen.body_names': 400, 'oracle:nnx.body_names': 300,
                            'hook:linen.add_axis': 5000, 'hook:linen.remove_axis': 5000, 'hook:nnx.add_axis': 3000, 'hook:nnx.remove_axis': 2000,
                            'oracle:boxed_vs_raw': 2000, 'oracle:linen.negative_axis_misaligned': 15000, 'oracle:nnx.negative_axis_misaligned': 15000,
                            'oracle:rules.axes': 22621, 'rules.tuples_evaluated': 3528876, 'oracle:meta.inverse': 1000,
-                           'oracle:legacy.align': 600}}
+                           'oracle:legacy.align': 200}}
 
 # every logical name owns a dimension size; partition names own the stacking lengths
 SIZE = {'a': 4, 'b': 5, 'c': 6, 'd': 8, None: 7}
@@ -810,7 +810,7 @@ def run_nnx_case(ctx, d):
 
 # the legacy insert_fn_leaf still uses list.insert(axis_pos) with Python semantics for axis_pos < 0 (reported); the property text
 # speaks of boxed variables + metadata_params, so negative axes of this deprecated API are not generated unless this is flipped.
-LEGACY_NEGATIVE_AXES = False
+LEGACY_NEGATIVE_AXES = True
 
 
 def legacy_body():
